@@ -6,6 +6,7 @@ import GenProps.C14ATN
 #print axioms Blackbird.C14_any_rule_last
 #print axioms Blackbird.C14_sixty_one_token_kinds
 #print axioms Blackbird.C14_longest_is_longest_in_language
+#print axioms Blackbird.C14_earliest_rule_wins_ties
 #print axioms Blackbird.C14_lexer_atn_identical
 #print axioms Blackbird.C14_parser_atn_identical
 #print axioms Blackbird.C14_tokens_files_identical
